@@ -239,7 +239,10 @@ def spline_oracle(obj, j):
     for a in starts:
         for b in inside:
             splint['%r,%r' % (a, b)] = float(raw.spline.integral(a, b))
-            quads['%r,%r' % (a, b)] = float(quad(lambda t: raw.spline(t) / t, a, b)[0])
+            # the integral itself (contract of the theorems C05_s_*): data points as break points, tight tolerance
+            kn = [float(t) for t in raw.Ts if min(a, b) < t < max(a, b)]
+            quads['%r,%r' % (a, b)] = float(quad(lambda t: raw.spline(t) / t, a, b, points=kn or None, limit=200 + 2 * len(kn),
+                                                 epsabs=1e-13, epsrel=1e-13)[0])
     ln = {}
     for a in (float(raw.T_ref), lo, hi):
         for b in pts:
